@@ -41,7 +41,8 @@ class Evaluator:
         self.trace = []
         self.steps = 0
 
-    def run(self, **args):
+    def run(_self, **args):
+        self = _self
         env = dict(args)
         self.trace = []
         self.steps = 0
@@ -152,7 +153,18 @@ class Evaluator:
         if isinstance(e, ast.Dict):
             return {self.expr(k, env): self.expr(v, env) for k, v in zip(e.keys, e.values)}
         if isinstance(e, ast.JoinedStr):
-            return Opaque('f-string')
+            parts = []
+            for v in e.values:
+                if isinstance(v, ast.Constant):
+                    parts.append(str(v.value))
+                elif isinstance(v, ast.FormattedValue) and v.format_spec is None and v.conversion == -1:
+                    x = self.expr(v.value, env)
+                    if isinstance(x, Opaque):
+                        return Opaque('f-string')
+                    parts.append(str(x))
+                else:
+                    return Opaque('f-string')
+            return ''.join(parts)
         if isinstance(e, ast.UnaryOp):
             v = self.expr(e.operand, env)
             if isinstance(e.op, ast.Not):
@@ -229,8 +241,22 @@ class Evaluator:
             raise AnalysisError(f'unsupported attribute access {text(e)}')
         if isinstance(e, ast.Call):
             f = e.func
+            if isinstance(f, ast.Name) and f.id == 'isinstance' and len(e.args) == 2:
+                v = self.expr(e.args[0], env)
+                tn = text(e.args[1])
+                kinds = {'str': str, 'bytes': bytes, 'tuple': tuple, 'list': list, 'dict': dict, 'int': int}
+                if tn not in kinds:
+                    raise AnalysisError(f'isinstance test against unmodelled type {tn}')
+                return isinstance(v, kinds[tn])
             args = [self.expr(a, env) for a in e.args]
             kwargs = {k.arg: self.expr(k.value, env) for k in e.keywords}
+            if isinstance(f, ast.Name) and f.id in env and callable(env[f.id]):
+                return env[f.id](*args, **kwargs)
+            if not isinstance(f, (ast.Name, ast.Attribute)):
+                fv = self.expr(f, env)
+                if callable(fv):
+                    return fv(*args, **kwargs)
+                raise AnalysisError(f'call of unmodelled value {text(f)}')
             if isinstance(f, ast.Name):
                 if f.id == 'len':
                     return len(args[0])
